@@ -9,6 +9,9 @@ CHECKS = {
  "C12": dict(text="Coq theorems (Props/C12.v), by induction over arbitrary operation histories: the fixed-slice and growable targets refine an append-only log of segments with holes (same result per op; buffer = rendered log ++ untouched tail; cursor = log length; reservations = unwritten hole ranges), failed ops are no-ops, the slice never grows or moves past its end, a write into a reservation is confined to it and shrinks it from the front, reservations are disjoint and below the cursor, vec reservations are zeroed; reads stay within the source, peeks do not consume. Tied to the Rust buffers by lock-step histories (bounded-exhaustive + random) with guard bytes.",
              note="Trusted: Coq kernel, extraction, harness. Allocation success is an oracle. Memory safety of unsafe blocks is outside the model (guard bytes only).",
              tech="Coq refinement proof by induction over histories + lock-step differential correspondence", ref="DESIGN.md §7 C12"),
+ "C19": dict(text="Coq theorems (Props/C19.v) about the character state machine of plugin_parser: parse(render path args) = (trim path, trimmed pairs) for every path and argument list whose components do not end in a backslash (induction over components and arguments), optional '=' for empty values, one trailing comma ignored, empty path / empty key / second '=' rejected with the matching usage error, empty string rejected. Tied to SliceOptions::try_parse_from by all 3906 strings of length <= 5 over {a, space, ',', '=', backslash} and random Unicode specifications written by the extracted renderer.",
+             note="Trusted: Coq kernel, extraction, harness; clap is exercised, not modelled; Rust's char::is_whitespace is transcribed as the White_Space set.",
+             tech="Coq proof (induction over the written specification) + exhaustive short-string correspondence", ref="DESIGN.md §7 C19"),
 }
 NOT_APPLICABLE = {}
 def main():
